@@ -272,7 +272,24 @@ func runC05(seed int64, n int, dir string, tier string) *Report {
 		sd := g.NativeSPDX(8, dup, dang)
 		u, r := spdxFacts(sd)
 		if data := gen.EncodeSPDX(sd); data != nil {
-			inputs = append(inputs, c05Input{name: fmt.Sprintf("generated-spdx-%d", i), data: data, format: formats.SPDX23JSON, unique: u, resolve: r, nodes: len(sd.Packages) + len(sd.Files)})
+			name := fmt.Sprintf("generated-spdx-%d", i)
+			if i%4 == 2 && u {
+				// an element whose name part itself begins with the marker (SPDXRef-SPDXRef-x): the library's
+				// encoder cannot write it, so one element is renamed in the text, everywhere it is spelled
+				var ids []string
+				for _, pk := range sd.Packages {
+					ids = append(ids, string(pk.PackageSPDXIdentifier))
+				}
+				for _, fl := range sd.Files {
+					ids = append(ids, string(fl.FileSPDXIdentifier))
+				}
+				if len(ids) > 0 {
+					id := gen.Pick(g, ids)
+					data = bytes.ReplaceAll(data, []byte(`"SPDXRef-`+id+`"`), []byte(`"SPDXRef-SPDXRef-`+id+`"`))
+					name += "-marker-in-name"
+				}
+			}
+			inputs = append(inputs, c05Input{name: name, data: data, format: formats.SPDX23JSON, unique: u, resolve: r, nodes: len(sd.Packages) + len(sd.Files)})
 		}
 	}
 	// the repository's real SBOMs and mutants of them that still parse (closure is required of the
